@@ -77,6 +77,14 @@ CHECKS = {
             "The real Parse/parseX86_64 run over L <= 2/3 symbolic lines delivered by a model scanner that may stop anywhere with or without an error. A line is an SMT string constrained only by regular-language memberships derived from the literals the current source uses; z3 5.1 decides each path's feasibility and obligations for ALL line contents: no panic, read failure => error and no partial result, findSyscallNum is only given lines of the current function, every reported syscall is in the table under its name, appended lines never remove earlier results.",
             "findSyscallNum (regexp + ParseInt) is summarised as 'arbitrary number or error'; alphabet = printable ASCII + space + tab; L bounded (no induction over the number of lines). String obligations are decided by z3 5.1.0 alone (no cross-check).",
             "SMT string/regular-language solving over symbolic lines with the real parser executed from go/ssa (z3 5.1)"),
+    "C17": (MC, "4 (C17)",
+            "The real doObjdump is executed twice over a model file system whose file contents are SMT strings. Run 1 may crash at any stub call (every file open for writing keeps a symbolic-length prefix of what was written) or its disassembler may fail after a prefix; run 2 is uninterrupted, for the same or another binary. z3 decides for all hashes, disassembly texts and crash prefixes: whenever run 2 returns a path, the file there is hash + newline + the complete disassembly; otherwise it returned an error. 'Same profile as a cold cache' follows because the profile is a function of that file.",
+            "Crash model: a process crash leaves a prefix of the sequentially written data, rename is atomic; no power-loss/fsync reasoning, no concurrent runs. File system, bufio.Writer and exec are harness models (~200 lines). String queries are decided by z3 4.8.12 / 5.1.0 (first definite answer, no independent cross-check).",
+            "SMT string solving (concatenation/prefix/length classes) over a two-run history of the real cache code with symbolic crash points (z3)"),
+    "C18": (MC, "4 (C18)",
+            "The real main() of the profiler (dedup map, filterBlacklist, addWhitelist, sort, output selection) is executed symbolically with k <= 2/3 discovered syscalls whose numbers are symbolic keys of the real table and blacklist/allow-list entries that are arbitrary strings; symbolic-key map updates fork over equality patterns and maps are iterated in both orders. For a fresh symbolic string x SMT decides x in out <=> (found and not blacklisted) or (allowed and a table name), duplicate-freedom, table membership, that the emitted slice is the one sort.Strings was last applied to, and that the captured policy is {errno, [{allow, out}]}.",
+            "sort.Strings is summarised (equality atoms carry no order): sortedness is 'emitted slice == last sorted slice, unmodified'. Loading the emitted YAML back is argued by composition (C14 key agreement + C01), not executed through yaml.v2. Stubs for everything up to ExtractSyscalls and for output.",
+            "SMT-based symbolic execution of the real main() with symbolic table keys and equality-atom strings (z3 + cvc5)"),
 }
 
 NOT_BUILT = "check not built yet (work in progress)"
